@@ -1,12 +1,12 @@
 #!/bin/bash
 # usage: tools/sweep.sh <tier> <tag> [VERIF_SEED ...]   (run from /verif or from a `vp run` snapshot)
-# Runs every claimed check at <tier> once per seed, sequentially, without touching evidence/;
+# (SWEEP_IDS="C05 C09" restricts the properties.) Runs every claimed check at <tier> once per seed, sequentially, without touching evidence/;
 # logs and a summary go to runlogs/<tag>/ next to this script's parent directory.
 cd "$(cd "$(dirname "$0")/.." && pwd)"
 tier=${1:-quick}; tag=${2:-sweep}; shift; shift
 seeds=("$@"); [ ${#seeds[@]} -eq 0 ] && seeds=(20260921)
 out=runlogs/$tag; mkdir -p $out
-ids=$(python3 -c "import json; print(' '.join(c['property_id'] for c in json.load(open('MANIFEST.json'))['checks']))")
+ids=${SWEEP_IDS:-$(python3 -c "import json; print(' '.join(c['property_id'] for c in json.load(open('MANIFEST.json'))['checks']))")}
 for seed in "${seeds[@]}"; do
   for p in $ids; do
     t0=$(date +%s)
